@@ -34,69 +34,32 @@ Proof.
   rewrite pe_valid_all_lem by apply b2n_lt. reflexivity.
 Qed.
 
-(* ------------------------------------------------------------------ known overflow classes *)
+(* ------------------------------------------------------------------ formerly overflowing inputs *)
 Definition no_bases : sbases := mksb None None None.
 
-(* .eh_frame_hdr: version 1, eh_frame_ptr udata4 = 0x100, fde_count udata8 = 2^63, table udata8 *)
+(* .eh_frame_hdr: version 1, eh_frame_ptr udata4 = 0x100, fde_count udata8 = 2^63, table udata8:
+   (len / 2) * row_size does not fit u64 *)
 Definition mul_witness : list byte :=
   map n2b [1; 3; 4; 4;  0; 1; 0; 0;  0; 0; 0; 0; 0; 0; 0; 128;
            0; 0; 0; 0; 0; 0; 0; 0; 0; 0; 0; 0; 0; 0; 0; 0].
 
-Lemma lookup_mul_overflow_witness :
-  exists h, hdr_parse true false no_bases 8 mul_witness = Ok h /\ hdr_table h = Some h /\
-            hdr_lookup true no_bases h 5 = Panic /\ hdr_lookup false no_bases h 5 <> Panic.
-Proof.
-  eexists. split; [vm_compute; reflexivity|]. split; [vm_compute; reflexivity|].
-  split; [vm_compute; reflexivity|vm_compute; discriminate].
-Qed.
+Lemma lookup_mul_overflow_witness : forall dbg,
+  exists h, hdr_parse dbg false no_bases 8 mul_witness = Ok h /\ hdr_table h = Some h /\
+            hdr_lookup dbg no_bases h 5 = Err EUnexpectedEof.
+Proof. intros [|]; eexists; (split; [vm_compute; reflexivity|]); split; vm_compute; reflexivity. Qed.
 
 (* one row (0x10 -> address 0xff) below eh_frame_ptr = 0x100 *)
 Definition s1_witness : list byte :=
   map n2b [1; 3; 3; 3;  0; 1; 0; 0;  1; 0; 0; 0;  16; 0; 0; 0;  255; 0; 0; 0].
 
-Lemma pointer_to_offset_underflow_witness :
-  exists h p, hdr_parse true false no_bases 8 s1_witness = Ok h /\
-              hdr_lookup true no_bases h 32 = Ok p /\
-              pointer_to_offset true h p = Panic /\
-              hdr_fde_for_address true no_bases h (mkcfg true false 8 no_bases) [] 32 = Panic.
+Lemma pointer_to_offset_underflow_witness : forall dbg,
+  exists h p, hdr_parse dbg false no_bases 8 s1_witness = Ok h /\
+              hdr_lookup dbg no_bases h 32 = Ok p /\
+              pointer_to_offset dbg h p = Err EOffsetOutOfBounds /\
+              hdr_fde_for_address dbg no_bases h (mkcfg true false 8 no_bases) [] 32 = Err EOffsetOutOfBounds.
 Proof.
-  eexists. eexists. split; [vm_compute; reflexivity|]. split; [vm_compute; reflexivity|].
-  split; vm_compute; reflexivity.
-Qed.
-
-(* the overflow classes, as predicates on a parsed header *)
-Definition mul_overflows (h : hdr) : Prop :=
-  exists size, tbl_field_size (h_enc h) = Some size /\ 2 ^ 64 <= h_count h * (size * 2).
-Definition ptr_below_section (h : hdr) (p : pointer) : Prop :=
-  exists a e, p = Direct a /\ h_ptr h = Direct e /\ a < e.
-
-Lemma hdr_lookup_no_panic_lem : forall dbg hb h a,
-  asz_ok (h_asz h) -> ~ mul_overflows h -> hdr_lookup dbg hb h a <> Panic /\ hdr_lookup dbg hb h a <> OutOfFuel.
-Proof.
-  intros dbg hb h a Hasz Hno. apply hdr_lookup_safe_lem; [exact Hasz|].
-  right. intros size Hs. destruct (N.lt_ge_cases (h_count h * (size * 2)) (2 ^ 64)) as [H|H]; [exact H|].
-  exfalso. apply Hno. exists size. auto.
-Qed.
-
-Lemma pointer_to_offset_no_panic_lem : forall dbg h p,
-  ~ ptr_below_section h p -> pointer_to_offset dbg h p <> Panic /\ pointer_to_offset dbg h p <> OutOfFuel.
-Proof.
-  intros dbg h p Hno. apply pointer_to_offset_safe_lem. right. intros a e Hp He.
-  destruct (N.le_gt_cases e a) as [H|H]; [exact H|]. exfalso. apply Hno. exists a, e. auto.
-Qed.
-
-Lemma hdr_fde_for_address_no_panic_lem : forall dbg hb h c sec a,
-  asz_ok (h_asz h) -> asz_ok (sc_asz c) -> ~ mul_overflows h ->
-  (forall p, hdr_lookup dbg hb h a = Ok p -> ~ ptr_below_section h p) ->
-  hdr_fde_for_address dbg hb h c sec a <> Panic /\ hdr_fde_for_address dbg hb h c sec a <> OutOfFuel.
-Proof.
-  intros dbg hb h c sec a Hh Hc Hmul Hptr. unfold hdr_fde_for_address.
-  apply safe_bind; [apply hdr_lookup_no_panic_lem; assumption|]. intros p Hp.
-  apply safe_bind; [apply pointer_to_offset_no_panic_lem; apply Hptr; exact Hp|]. intros o _.
-  apply safe_bind; [apply fde_from_offset_safe; exact Hc|]. intros fd Hfd.
-  apply safe_bind; [apply fde_contains_safe|].
-  - unfold fde_from_offset in Hfd. apply bind_ok in Hfd as (p0 & _ & Hfd). eapply fde_parse_asz; eassumption.
-  - intros b _. destruct b; auto with safe.
+  intros [|]; eexists; eexists; (split; [vm_compute; reflexivity|]); (split; [vm_compute; reflexivity|]);
+    split; vm_compute; reflexivity.
 Qed.
 
 (* soundness of the header path for EVERY header, table and section: what it returns is the FDE
